@@ -247,6 +247,15 @@ async fn send_malformed(srv: &Server, proto: u64, r: &LReq, kind: u64) -> (Strin
     }
 }
 
+/// GET /metrics -> [total, http, grpc, redis, allowed, denied, errors]
+async fn scrape(srv: &Server) -> Option<[u64; 7]> {
+    let (st, body) = http_raw(srv.http, b"GET /metrics HTTP/1.1\r\nHost: x\r\nConnection: close\r\n\r\n", false).await.ok()?;
+    if st != 200 { return None; }
+    let get = |name: &str| -> Option<u64> { body.lines().find(|l| l.starts_with(name) && l[name.len()..].starts_with(' ')).and_then(|l| l[name.len() + 1..].trim().parse().ok()) };
+    let tr = |t: &str| -> Option<u64> { let pat = format!("throttlecrab_requests_by_transport{{transport=\"{t}\"}} "); body.lines().find(|l| l.starts_with(&pat)).and_then(|l| l[pat.len()..].trim().parse().ok()) };
+    Some([get("throttlecrab_requests_total")?, tr("http")?, tr("grpc")?, tr("redis")?, get("throttlecrab_requests_allowed")?, get("throttlecrab_requests_denied")?, get("throttlecrab_requests_errors")?])
+}
+
 const RATES: &[(i64, i64)] = &[(1, 1000), (1, 3600), (2, 2000), (3, 3000), (1, 86400), (5, 50000), (1, 100)];
 
 /// the library's own answer for the request that reaches the limiter (documented defaults applied), at model time t0 + i ns,
@@ -309,7 +318,9 @@ async fn fidelity(srv: &Server, rng: &mut Rng, cases: u64, tag: &str) {
                 ops.push(format!("{{\"proto\":{proto},\"variant\":{variant},\"req\":{},\"sent\":{},\"wire\":{},\"lib\":{lib}}}", r.json(), sent, w.json()));
             }
         }
-        println!("{{\"mode\":\"fidelity\",\"case\":{c},\"elapsed_ms\":{},\"ops\":[{}]}}", t0.elapsed().as_millis(), ops.join(","));
+        // quiescent point: every request of this session has been answered; what does /metrics say?
+        let m = scrape(srv).await.map(|a| format!("{:?}", a)).unwrap_or("null".into());
+        println!("{{\"mode\":\"fidelity\",\"case\":{c},\"elapsed_ms\":{},\"metrics\":{m},\"ops\":[{}]}}", t0.elapsed().as_millis(), ops.join(","));
     }
 }
 
